@@ -416,6 +416,13 @@ def compare(op, a, b):
         if isinstance(v, SV) and v.ty.kind == "u" and v.ty.name in SYM_COMPARE:
             return SYM_COMPARE[v.ty.name](op, a, b)
     a, b = _same(a, b)
+    if a.ty.kind == "set":
+        # subset order on sets; a counterexample element is a Skolem witness the solver finds itself
+        lo, hi = (a, b) if op in ("<", "<=") else (b, a)
+        sub = z3.IsSubset(lo.t, hi.t)
+        return SV(TBool, sub if op in ("<=", ">=") else z3.And(sub, lo.t != hi.t))
+    if a.ty.kind not in ("int", "real"):
+        raise Unsupported(f"ordering comparison on {a.ty!r}")
     t = {"<": a.t < b.t, "<=": a.t <= b.t, ">": a.t > b.t, ">=": a.t >= b.t}[op]
     return SV(TBool, t)
 
